@@ -175,7 +175,18 @@ func Worker(e Engine, tier string, seed uint64, shard, of int, runs uint64, know
 			}
 			unmin := PlanJSON(plan)
 			fresh := func(prelude []json.RawMessage, pl json.RawMessage) bool {
-				return childReproduces(m, outPath, seed, i, v.Sig, prelude, pl)
+				// the race detector keeps a bounded, randomly evicted access history per memory word, so
+				// a genuine race is not reported in every execution: give a race signature three attempts
+				tries := 1
+				if strings.HasPrefix(v.Sig, "race{") {
+					tries = 3
+				}
+				for k := 0; k < tries; k++ {
+					if childReproduces(m, outPath, seed, i, v.Sig, prelude, pl) {
+						return true
+					}
+				}
+				return false
 			}
 			if fresh(nil, unmin) {
 				minPlan, execs := Minimise(e, ClonePlan(e, plan), v.Sig, 3000)
@@ -285,7 +296,7 @@ func childReproduces(m Meta, outPath string, seed, run uint64, sig string, prelu
 	}
 	defer os.Remove(tmp)
 	cmd := exec.Command(self, "replay", tmp)
-	cmd.Env = append(os.Environ(), "GOMAXPROCS=2")
+	cmd.Env = append(os.Environ(), "GOMAXPROCS=1")
 	outb, _ := cmd.CombinedOutput()
 	return strings.Contains(string(outb), "REPRODUCED "+sig) && !strings.Contains(string(outb), "NOT-REPRODUCED")
 }
@@ -529,10 +540,18 @@ func Check(e Engine, o CheckOpts) int {
 		b, _ := json.MarshalIndent(rp, "", " ")
 		_ = os.WriteFile(path, b, 0o644)
 		// fresh-process confirmation
-		cmd := exec.Command(o.Self, "replay", path)
-		cmd.Env = append(os.Environ(), "GOMAXPROCS=2", "GORACE=halt_on_error=0 suppress_equal_stacks=0 suppress_equal_addresses=0 history_size=3 exitcode=0 log_path="+filepath.Join(o.Scratch, "replay.race"))
-		outb, _ := cmd.CombinedOutput()
-		confirmed := strings.Contains(string(outb), "REPRODUCED "+f.Sig) && !strings.Contains(string(outb), "NOT-REPRODUCED")
+		var outb []byte
+		confirmed := false
+		tries := 1
+		if strings.HasPrefix(f.Sig, "race{") {
+			tries = 3 // see Worker: race reports are probabilistic
+		}
+		for k := 0; k < tries && !confirmed; k++ {
+			cmd := exec.Command(o.Self, "replay", path)
+			cmd.Env = append(os.Environ(), "GOMAXPROCS=1", "GORACE=halt_on_error=0 suppress_equal_stacks=0 suppress_equal_addresses=0 history_size=3 exitcode=0 log_path="+filepath.Join(o.Scratch, "replay.race"))
+			outb, _ = cmd.CombinedOutput()
+			confirmed = strings.Contains(string(outb), "REPRODUCED "+f.Sig) && !strings.Contains(string(outb), "NOT-REPRODUCED")
+		}
 		if !confirmed {
 			// A violation that does not replay in a fresh process is a harness defect, not a finding.
 			infra = true
